@@ -542,13 +542,22 @@ def callers_of(idx, fi):
     return _CALLERS_CACHE[key].get(fi.name, [])
 
 
-def owners_of(idx, fi, allowed, depth=4):
+def owners_of(idx, fi, allowed, depth=4, _seen=()):
     """the members of `allowed` (a set of 'Class.method' names) on whose behalf fi runs: fi itself, or — when fi is a private helper
     (method of the same class hierarchy, or module-level function of the same file) — the allowed functions its call chains come
     from.  Empty when fi is reachable from a function outside `allowed`, or from nowhere.  Makes who-may-write / who-may-call rules
     robust to extract-method refactorings."""
     if fi.qual in allowed:
         return {fi.qual}
+    # a method pulled up into a base class is `Sub.method` for every subclass that inherits it unchanged
+    if fi.cls:
+        inh = set()
+        for sname in idx.subclasses(fi.cls):
+            q = f"{sname}.{fi.name}"
+            if q in allowed and idx.has_method(sname, fi.name) and idx.method(sname, fi.name).node is fi.node:
+                inh.add(q)
+        if inh:
+            return inh
     if depth == 0 or not fi.name.startswith("_") or fi.name.startswith("__"):
         return set()
     owners = set()
@@ -566,7 +575,9 @@ def owners_of(idx, fi, allowed, depth=4):
     if not sites:
         return set()
     for f, c in sites:
-        o = owners_of(idx, f, allowed, depth - 1)
+        if f.node is fi.node or any(f.node is x for x in _seen):
+            continue   # recursion / an override calling super(): no new origin
+        o = owners_of(idx, f, allowed, depth - 1, _seen + (fi.node,))
         if not o:
             return set()
         owners |= o
